@@ -58,6 +58,7 @@ type Profile struct {
 	// no two distinct batch members with one uuid (C05/C06: the per-object
 	// before/after oracle would need the intermediate member values)
 	NoCopyItems bool
+	NoHugeStr   bool // no strings of several KiB (checks whose cost grows with object size)
 	FixedCfg    *Config
 }
 
@@ -239,8 +240,20 @@ func (g *G) Float(bits int) float64 {
 
 var strGen = rapid.StringOfN(rapid.RuneFrom(nil, unicodeLetters...), 0, 6, -1)
 
+// hugeStr: values around the usual buffer sizes (4 KiB, 8 KiB, 32 KiB, 64 KiB)
+func (g *G) hugeStr() string {
+	n := pickU(g, []int{4095, 4096, 4097, 4097, 8200, 8200, 32769, 70000}, "hugelen")
+	unit := pickU(g, []string{"a", "xy ", "ß", "\"q\""}, "hugeunit")
+	return strings.Repeat(unit, n/len(unit)+1)[:n/len(unit)*len(unit)]
+}
+
 func (g *G) Str() string {
 	var v string
+	if !g.p.NoHugeStr && rapid.IntRange(0, 399).Draw(g.t, "huge") == 399 { // (shrinking moves away from it)
+		v = g.hugeStr()
+		g.strs = append(g.strs, v)
+		return v
+	}
 	switch g.source() {
 	case 0:
 		v = pickU(g, tinyStrs, "tinystr")
